@@ -72,7 +72,7 @@ func GenC16(seed uint64) *Plan {
 		var fields []string
 		switch mode {
 		case model.ModeLog:
-			ev := g.Event(g.pick(eventNames)+fmt.Sprint(i), EventOpts{MaxInputs: 4, AllowDynamic: true, AllowArray: g.chance(50), SafeIndexedSel: false})
+			ev := g.Event(g.pick(eventNames)+fmt.Sprint(i), EventOpts{MaxInputs: 4, AllowDynamic: true, AllowArray: g.chance(50), AllowTupleArray: g.chance(40), SafeIndexedSel: false})
 			for k := range ev.Inputs {
 				if ev.Inputs[k].Column != "" {
 					ev.Inputs[k].Column = word()
@@ -116,8 +116,13 @@ func GenC16(seed uint64) *Plan {
 		}
 		// identity columns supplied by the user in some runs (with the documented types)
 		for _, idc := range []string{"block_num", "tx_idx", "ig_name", "src_name"} {
-			if g.chance(25) {
+			switch r := g.R.IntN(100); {
+			case r < 25:
 				d.Block = append(d.Block, model.Field{Name: idc, Column: idc})
+				addCol(idc, FieldType[idc])
+			case r < 37:
+				// only the column is declared; the field that writes it is
+				// one of the automatically required ones
 				addCol(idc, FieldType[idc])
 			}
 		}
